@@ -167,6 +167,8 @@ pub fn gen(ctx: &Ctx, rng: &mut Rng, out: &mut Vec<String>) {
     }
     // (c) absurd declared shapes
     for sh in ["4294967296/4294967296", "0/4294967296/4294967296", "4294967296/4294967296/0", "18446744073709551615", "18446744073709551616", "18446744073709551615/2", "9223372036854775808/2", "0", "0/0", "1/0/3",
+               // zero-element spectra whose other axes sit at the limits of usize (the product fits: these are valid, empty arrays)
+               "18446744073709551615/1/0", "0/18446744073709551615", "18446744073709551615/0", "9223372036854775808/0/1", "0/9223372036854775807/2", "1/0/18446744073709551615/1",
                "1/1/1/1/1/1/1/1/1/1/1/1/1/1/1/1/1/1/1/1/10", "3/3", "1", "2"] {
         let body = if sh == "3/3" { "1 2 3 4 5 6 7 8 9" } else if sh == "1" { "5" } else if sh == "2" { "5 6" } else if sh.ends_with("/10") { "1 2 3 4 5 6 7 8 9 10" } else { "" };
         let input = format!("#SHAPE=<{sh}>\n{body}\n");
@@ -213,6 +215,23 @@ pub fn gen(ctx: &Ctx, rng: &mut Rng, out: &mut Vec<String>) {
                         ("view", "-m 0,0"), ("view", "-m 0,1"), ("view", "-M 7"), ("view", "-M 0,1"), ("view", "-m 0 -M 1"), ("view", "-m"), ("view", "-O xyz"), ("stat", "-s nope"), ("stat", "-"), ("fold", "--fill 3"),
                         ("stat", "-s sum -d ab"), ("stat", "-s sum -d \u{e9}"), ("stat", "-s king,r0,r1,f2,fst,pi-xy,s,sum -H"), ("stat", "-s f3 -H")] {
         out.push(format!("pn.any\t{cmd}\t{args}\t{}", hex(&ok33)));
+    }
+    // (d') axis lists of every form (ascending, descending, adjacent and non-adjacent repeats, out of range, all axes, more than all)
+    //      against spectra of one to six axes
+    for d in 1..=6usize {
+        let shape: Vec<usize> = (0..d).map(|k| 2 + (k % 2)).collect();
+        let n: usize = shape.iter().product();
+        let input = text_spec(&shape, &(0..n).map(|x| (x % 13) as f64 + 1.0).collect::<Vec<_>>());
+        let last = d - 1;
+        let mut lists: Vec<String> = vec!["0,1,0".into(), "1,0,1".into(), "0,2,0".into(), format!("{last},0,{last}"), format!("0,{last},0"), "0,1,2,0".into(), "2,1,0".into(), "0,0,1".into(), "1,1".into(),
+            format!("{last}"), format!("{d}"), format!("0,{d}"), (0..d).map(|x| x.to_string()).collect::<Vec<_>>().join(","), (0..=d).map(|x| x.to_string()).collect::<Vec<_>>().join(","), "3,1".into(), "1,3,1".into(), "2,0,3,0".into()];
+        lists.dedup();
+        for l in &lists {
+            for flag in ["-m", "-M"] {
+                if !t && flag == "-M" && l.len() > 5 && d % 2 == 0 { continue; }
+                out.push(format!("pn.any\tview\t{flag} {l} -O npy\t{}", hex(&input)));
+            }
+        }
     }
     // (e) create: contradictory / odd sample lists, projections and thread counts on a valid call set
     let cs = vcf::CallSet { cols: vec!["s0".into(), "s1".into(), "s2".into()], extras: false, wide: 0,
